@@ -24,6 +24,8 @@ import collections, concurrent.futures as cf, hashlib, json, os, shutil
 from .common import BUILD, LEAN
 
 PROPS = ["PPLV.Props.C03Trans"]
+# stage 5: octagon transformers, lhs-expression transformers, lattice / dimension operations (modules that exist are proved)
+PROPS5 = ["PPLV.Props.C03Trans2", "PPLV.Props.C03Trans2Oct", "PPLV.Props.C03Trans2Lhs", "PPLV.Props.C03Trans2Lat"]
 DRIVER = "pplv_wrt"
 HARNESS = "c03_trans.cc"
 NPROC = 16
@@ -35,6 +37,26 @@ SITE = {"refine": "BD_Shape::refine_no_check", "addc": "BD_Shape::add_constraint
         "apre": "BD_Shape::affine_preimage", "gapre": "BD_Shape::generalized_affine_preimage(var)"}
 TNAME = {"id": "mpq", "ceil": "mpz", "range:-126:126": "int8", "dbl": "double"}
 N_ARGS = {"refine": 4, "addc": 4, "aff": 4, "gaff": 5, "baff": 6, "unc": 1, "oaff": 4, "apre": 4, "gapre": 5}
+# stage 5 (harness section `stage 5`); octagon codes = "o" + code
+_N5 = {"addc": 4, "refine": 4, "apre": 4, "refv": 5, "gaff": 5, "gapre": 5, "gaffl": 5, "gaprel": 5, "baff": 6, "unc": 1,
+       "embed": 1, "project": 1, "rmdims": 1, "rmhi": 1, "mapdims": 1, "meet": 2, "join": 2, "diff": 2, "tel": 2,
+       "expand": 2, "fold": 2, "concat": 3}
+_NAME5 = {"addc": "add_constraint", "refine": "refine_no_check", "refv": "refine(var)", "gaff": "generalized_affine_image(var)",
+          "baff": "bounded_affine_image", "apre": "affine_preimage", "gapre": "generalized_affine_preimage(var)",
+          "unc": "unconstrain", "gaffl": "generalized_affine_image(lhs)", "gaprel": "generalized_affine_preimage(lhs)",
+          "meet": "intersection_assign", "join": "upper_bound_assign", "diff": "difference_assign", "tel": "time_elapse_assign",
+          "concat": "concatenate_assign", "embed": "add_space_dimensions_and_embed", "project": "add_space_dimensions_and_project",
+          "rmdims": "remove_space_dimensions", "rmhi": "remove_higher_space_dimensions", "mapdims": "map_space_dimensions",
+          "expand": "expand_space_dimension", "fold": "fold_space_dimensions"}
+S5_OPS = set()
+for _k, _v in _N5.items():
+    for _pre, _dom in (("", "BD_Shape"), ("o", "Octagonal_Shape")):
+        if _pre + _k not in N_ARGS:
+            N_ARGS[_pre + _k] = _v
+            SITE[_pre + _k] = "%s::%s" % (_dom, _NAME5[_k])
+            S5_OPS.add(_pre + _k)
+_LATTICE = set(p + k for p in ("", "o") for k in ("meet", "join", "diff", "tel", "concat", "embed", "project", "rmdims", "rmhi",
+                                                   "mapdims", "expand", "fold"))
 
 
 def parse_line(line):
@@ -45,13 +67,17 @@ def parse_line(line):
     k = N_ARGS[t[1]]
     rest = t[6:]
     return {"id": t[0], "op": t[1], "mode": t[2], "n": int(t[3]), "closed": t[4], "before": t[5],
-            "args": rest[:k], "after": " ".join(rest[k:])}
+            "args": rest[:k], "after": " ".join(rest[k:]), "stage5": t[1] in S5_OPS}
 
 
 def _ints_of_args(op, args):
     """the integers written in the arguments (coefficients, denominator, inhomogeneous terms), variable ids left out"""
     out = []
-    skip_first = {"aff": 1, "gaff": 2, "baff": 1, "unc": 1, "oaff": 1, "refine": 2, "addc": 2, "apre": 1, "gapre": 2}[op]
+    if op in _LATTICE:
+        return out                      # matrices, dimensions, variable ids: nothing is converted to T
+    base = op[1:] if op.startswith("o") and op != "oaff" else op
+    skip_first = {"aff": 1, "gaff": 2, "baff": 1, "unc": 1, "oaff": 1, "refine": 2, "addc": 2, "apre": 1, "gapre": 2,
+                  "refv": 2, "gaffl": 1, "gaprel": 1}[base]
     for a in args[skip_first:]:
         for x in a.split(","):
             try:
@@ -93,9 +119,10 @@ def structural_tags(ev, maxb=0):
     return tags
 
 
-def _run_chunk(ctx, h, drv, wd, k, seed, first, last, per, oct_per):
+def _run_chunk(ctx, h, drv, wd, k, seed, first, last, per, oct_per, s5_per=0):
     jp = os.path.join(wd, "journal.%d.txt" % k)
-    cmd = [h, "--seed", str(seed), "--first", str(first), "--last", str(last), "--per", str(per), "--oct", str(oct_per)]
+    cmd = [h, "--seed", str(seed), "--first", str(first), "--last", str(last), "--per", str(per), "--oct", str(oct_per),
+           "--s5", str(s5_per)]
     rc, _, err = ctx.run(cmd, stdout_path=jp, timeout=3000)
     if rc != 0:
         ctx.fatal("harness c03_trans failed rc=%s %s" % (rc, (err or "")[-500:]))
@@ -105,8 +132,8 @@ def _run_chunk(ctx, h, drv, wd, k, seed, first, last, per, oct_per):
     return open(jp).read().splitlines(), out.splitlines()
 
 
-def _examine(ctx, journal, verdicts, harness_args, cov):
-    """classify every verdict; report; fill the coverage counters"""
+def _examine(ctx, journal, verdicts, harness_args, cov_all):
+    """classify every verdict; report; fill the coverage counters (cov_all["s3"]: stage 3, cov_all["s5"]: stage 5)"""
     by_id = {}
     for l in journal:
         t = l.split(None, 1)
@@ -118,7 +145,6 @@ def _examine(ctx, journal, verdicts, harness_args, cov):
         if len(t) >= 2:
             per_id[t[1]].append(v)
     reported = collections.Counter()
-    counts = cov["verdicts"]
     for vid, vs in per_id.items():
         line = by_id.get(vid, "")
         ev = parse_line(line) or {"id": vid, "op": "?", "mode": "?", "n": 0, "before": "", "args": [], "after": ""}
@@ -127,6 +153,7 @@ def _examine(ctx, journal, verdicts, harness_args, cov):
         jfail = next((v for v in vs if v.startswith("JUDGE-FAIL")), None)
         head = vs[0].split()
         kind = head[0]
+        counts = cov_all["s5" if ev.get("stage5") else "s3"]["verdicts"]
         counts[kind] += 1
         if jfail and kind != "JUDGE-FAIL":
             counts["JUDGE-FAIL"] += 1
@@ -134,9 +161,15 @@ def _examine(ctx, journal, verdicts, harness_args, cov):
                   "harness_args": harness_args + ["--id", vid],
                   "how_to_replay": "bin/check C03 --replay <this file>   (or: echo '<history[0]>' > l.txt ; build/c03_trans-* --replay l.txt "
                                    "| lean/.lake/build/bin/pplv_wrt ; the recorded outcome alone: lean/.lake/build/bin/pplv_wrt < l.txt)"}
-        if kind in ("ok", "okle"):
+        if ev.get("stage5"):
+            cov = cov_all["s5"]
+        else:
+            cov = cov_all["s3"]
+        if kind in ("ok", "okle", "judged"):
             op, tag, jf = head[2], head[3], head[4] if len(head) > 4 else "-"
-            if op == "baff" and ":lb." in tag:      # ub.<form of ub_expr>:lb.<form of lb_expr>/<sign of den>[/bigden]
+            if kind == "judged":
+                cov["no_model_judged_only"][op] += 1
+            if op in ("baff", "obaff") and ":lb." in tag:      # ub.<form of ub_expr>:lb.<form of lb_expr>/<sign of den>[/bigden]
                 ub, lb = tag.split(":lb.", 1)
                 lbf, _, sfx = lb.partition("/")
                 cov["branches"]["%s %s %s/%s" % (tn, op, ub, sfx)] += 1
@@ -189,18 +222,41 @@ def _examine(ctx, journal, verdicts, harness_args, cov):
                               dict(replay, tags=tags), found_input=True, record={"site": site, "tags": tags})
         if jfail and kind != "MISMATCH":
             tags = structural_tags(ev) + ["judge_fail"]
+            # the structural class of KF-C03-75..78 (Octagonal_Shape::refine, GREATER_OR_EQUAL, one unbounded variable u >= var
+            # with coefficient == den: the cell of `v + u` is written instead of the one of `u - v`), read off the branch tag
+            if len(head) > 3 and "ge.ref.g.c1.eqden.uGEv" in head[3]:
+                tags.append("refine_ge_later_var_unbounded_below")
             cls = (site, tn, "JUDGE")
             reported[cls] += 1
             if reported[cls] <= 3:
                 what = ("%s [%s]: the result does not contain the exact result (K1 judge on the real matrices) | %s | event: %s" % (
                     site, tn, jfail[:400], line[:400]))
                 ctx.violation(what, dict(replay, tags=tags), found_input=True, record={"site": site, "tags": tags})
-    cov["reported_classes"] = {" ".join(map(str, k)): v for k, v in reported.items()}
+    cov_all["s3"]["reported_classes"] = {" ".join(map(str, k)): v for k, v in reported.items()}
+
+
+def _new_cov():
+    return {"verdicts": collections.Counter(), "branches": collections.Counter(), "baff_lower_bound_forms": collections.Counter(),
+            "per_type_op": collections.Counter(), "sizes": collections.Counter(), "closed_flag": collections.Counter(),
+            "outcomes": collections.Counter(), "nan": collections.Counter(), "no_model_judged_only": collections.Counter(),
+            "judged_sound": 0, "skipped_coefficient_not_representable": 0}
+
+
+def _hash(l):
+    return hashlib.sha256(" ".join(l.split()[1:]).encode()).hexdigest()
+
+
+def _nontrivial(e):
+    a = e["after"]
+    if a == "E" or a.startswith("X:"):
+        return False
+    return a.split("|")[-1] != e["before"]
 
 
 def run(ctx):
     """returns the list of broken proof obligations (the caller reports them)."""
-    broken = ctx.prove(PROPS)
+    props5 = [m for m in PROPS5 if os.path.exists(os.path.join(LEAN, *m.split(".")) + ".lean")]
+    broken = ctx.prove(PROPS + props5)
     quick = ctx.tier == "quick"
     drv = ctx.ensure_pplv(DRIVER)
     h = ctx.compile_harness(HARNESS)
@@ -208,40 +264,50 @@ def run(ctx):
     shutil.rmtree(wd, ignore_errors=True)
     os.makedirs(wd)
     oct_modelled = os.path.exists(os.path.join(LEAN, "PPLV", "WR", "TransOct.lean"))
-    n_batches, per, oct_per = (96, 30, 12 if oct_modelled else 0) if quick else (1600, 40, 16 if oct_modelled else 0)
+    n_batches, per, oct_per, s5_per = (96, 30, 12 if oct_modelled else 0, 12) if quick else (1600, 40, 16 if oct_modelled else 0, 30)
     chunk = (n_batches + NPROC - 1) // NPROC
     jobs = [(k, k * chunk, min(n_batches, (k + 1) * chunk)) for k in range(NPROC) if k * chunk < n_batches]
     journal, verdicts = [], []
     with cf.ThreadPoolExecutor(NPROC) as ex:
-        for j, v in ex.map(lambda a: _run_chunk(ctx, h, drv, wd, a[0], ctx.seed, a[1], a[2], per, oct_per), jobs):
+        for j, v in ex.map(lambda a: _run_chunk(ctx, h, drv, wd, a[0], ctx.seed, a[1], a[2], per, oct_per, s5_per), jobs):
             journal += j
             verdicts += v
-    harness_args = ["--seed", str(ctx.seed), "--per", str(per), "--oct", str(oct_per)]
-    cov = {"verdicts": collections.Counter(), "branches": collections.Counter(), "baff_lower_bound_forms": collections.Counter(),
-           "per_type_op": collections.Counter(), "sizes": collections.Counter(), "closed_flag": collections.Counter(),
-           "outcomes": collections.Counter(), "nan": collections.Counter(), "judged_sound": 0,
-           "skipped_coefficient_not_representable": 0}
-    _examine(ctx, journal, verdicts, harness_args, cov)
-    events = [l for l in journal if parse_line(l)]
-    distinct = set(hashlib.sha256(" ".join(l.split()[1:]).encode()).hexdigest() for l in events)
-    nontrivial = set(hashlib.sha256(" ".join(l.split()[1:]).encode()).hexdigest() for l in events
-                     if (lambda e: e["after"] not in ("E",) and not e["after"].startswith("X:") and e["after"] != e["before"])(parse_line(l)))
-    out = {k: (dict(sorted(v.items())) if isinstance(v, collections.Counter) else v) for k, v in cov.items()}
-    out.update({
-        "events": len(events), "distinct": len(distinct), "distinct_nontrivial": len(nontrivial),
-        "batches": n_batches, "per_type_per_batch": per, "octagon_cases_per_type_per_batch": oct_per,
-        "rule": "seeded calls of the real transformers on matrices written into dbm (closed first in 3/4 of the cases); distinct "
-                "by hash of (op, T, n, closed, before, args, after); non-trivial = the call returned a matrix different from "
-                "`before`; branch = the path through the C++ function (t0 | t1.w==v/w!=v.a=+-den | general with the pinf "
-                "counts of the upper/lower sums, y/n = the single-unbounded-variable constraint was added) / sign of den",
-        "samples": events[:3],
-    })
-    ctx.cov["c03_trans"] = out
+    harness_args = ["--seed", str(ctx.seed), "--per", str(per), "--oct", str(oct_per), "--s5", str(s5_per)]
+    cov_all = {"s3": _new_cov(), "s5": _new_cov()}
+    _examine(ctx, journal, verdicts, harness_args, cov_all)
+    parsed = [(l, parse_line(l)) for l in journal]
+    for key, stage5, covname in (("s3", False, "c03_trans"), ("s5", True, "c03_trans2")):
+        events = [l for l, e in parsed if e and bool(e.get("stage5")) == stage5]
+        distinct = set(_hash(l) for l in events)
+        nontrivial = set(_hash(l) for l, e in parsed if e and bool(e.get("stage5")) == stage5 and _nontrivial(e))
+        out = {k: (dict(sorted(v.items())) if isinstance(v, collections.Counter) else v) for k, v in cov_all[key].items()}
+        out.update({"events": len(events), "distinct": len(distinct), "distinct_nontrivial": len(nontrivial), "batches": n_batches,
+                    "samples": events[:3]})
+        if not stage5:
+            out.update({
+                "per_type_per_batch": per, "octagon_cases_per_type_per_batch": oct_per,
+                "rule": "seeded calls of the real transformers on matrices written into dbm (closed first in 3/4 of the cases); distinct "
+                        "by hash of (op, T, n, closed, before, args, after); non-trivial = the call returned a matrix different from "
+                        "`before`; branch = the path through the C++ function (t0 | t1.w==v/w!=v.a=+-den | general with the pinf "
+                        "counts of the upper/lower sums, y/n = the single-unbounded-variable constraint was added) / sign of den"})
+        else:
+            out.update({
+                "cases_per_type_per_batch": s5_per, "proved_modules": props5,
+                "rule": "stage 5: seeded calls of the real Octagonal_Shape transformers (add_constraint, refine_no_check, private refine, "
+                        "generalized_affine_image(var), bounded_affine_image, affine_preimage, generalized_affine_preimage(var), unconstrain), "
+                        "of generalized_affine_(pre)image(lhs, relsym, rhs) and BD_Shape's private refine, and of the lattice / dimension "
+                        "operations of both domains, on matrices written into dbm / matrix; distinct by hash of the journal line; "
+                        "non-trivial = a matrix different from `before` came back; branch = form of the expressions / flags of the "
+                        "arguments; verdict `judged` = no model for this operation, only the K1 judge speaks"})
+        ctx.cov[covname] = out
     ctx.assumptions += [
         "stage 3 (transformers): the model is tied to the code by exact replay of every journalled call (mpq, mpz, int8); for "
         "double only `model with exact arithmetic <= real matrix` is demanded (binary rounding is not reproduced) and the real "
         "matrix is judged sound by K1; calls with a coefficient that T cannot represent are outside the model (counted as skip, "
         "still judged by K1); calls where only the denominator is not representable are replayed (branch tag .../bigden)",
+        "stage 5: the same tie for the octagon transformers, the lhs-expression transformers and the lattice / dimension operations; "
+        "the K1 judge reads the exact result as a union of reference polyhedra (join: both arguments, difference: x minus each row of y, "
+        "fold: one piece per folded variable) and demands exactness on gamma where the operation is exact for every T",
     ]
     shutil.rmtree(wd, ignore_errors=True)
     return broken
